@@ -273,7 +273,7 @@ func TestC14(t *testing.T) {
 	validNotes := []string{":typecast", ":stringer", ":getter", ":case:off", ":skip S", ":map X X", ":conv f1 X", ":literal S \"x\"", ":postprocess h2", ":style return"}
 
 	// (a) planted malformations in varying context
-	rapidRun(t, env, "planted", env.Pick(52*4, 52*60), func(rt *rapid.T) {
+	rapidRun(t, env, "planted", env.Pick(52*12, 52*200), func(rt *rapid.T) {
 		pl := rapid.SampledFrom(c14Planted).Draw(rt, "planted")
 		var sb strings.Builder
 		sb.WriteString(c14Head)
@@ -409,7 +409,7 @@ func TestC14(t *testing.T) {
 		}
 		return inner(rt)
 	}
-	rapidRun(t, env, "hostile", env.Pick(1600, 60000), func(rt *rapid.T) {
+	rapidRun(t, env, "hostile", env.Pick(6400, 200000), func(rt *rapid.T) {
 		var sb strings.Builder
 		hostile := false
 		methods := 0
